@@ -398,7 +398,7 @@ func init() {
 func init() {
 	registry["C19"] = func(tier string) []*Job {
 		var js []*Job
-		cfgs := []seqCfg{{"be_writing", 2, 0, 0, 0}, {"bs_max4", 0, 0, 1, 4}}
+		cfgs := []seqCfg{{"be_writing", 2, 0, 0, 0}, {"br_writing", 0, 2, 0, 0}, {"bs_max4", 0, 0, 1, 4}}
 		nset := 2
 		if tier == "thorough" {
 			cfgs = append(cfgs, seqCfg{"ber_accessing", 3, 2, 0, 0}, seqCfg{"bwe_w100", 2, 0, 2, 100}, seqCfg{"b", 0, 0, 0, 0}, seqCfg{"ber_custom", 4, 3, 0, 0}, seqCfg{"bse_max4", 2, 0, 1, 4}, seqCfg{"bw_w100", 0, 0, 2, 100}, seqCfg{"bser_max2", 1, 2, 1, 2})
@@ -715,14 +715,23 @@ func init() {
 					js = append(js, mk(sprintf("%s.sync.%s", prop, c.name), rootPkg, fn, p, func(b *Bounds) { b.Unwind = 70; b.MaxPaths = 2000000; b.MaxWallS = 2400 }))
 				}
 			}
+			// schedules: pre-emption bound 1 in both tiers (bound 2 with three to five threads did not finish within
+			// an hour); the thorough tier varies maximum and pre-state instead
 			pre := 1
+			maxes := []int{2}
+			pres := []int{1}
 			if tier == "thorough" {
-				pre = 2
+				maxes = []int{1, 2}
+				pres = []int{0, 1}
 			}
 			for _, w := range []int{0, 1} {
-				js = append(js, mk(sprintf("%s.par.weighted%d.pre%d", prop, w, pre), rootPkg, "ZZ_C0405_Par",
-					map[string]int{"prop": pn, "weighted": w, "max": 2, "pre": 1},
-					func(b *Bounds) { b.Unwind = 140; b.Preempt = pre; b.Race = true; b.MaxPaths = 8000000; b.MaxWallS = 3000 }))
+				for _, mx := range maxes {
+					for _, ps := range pres {
+						js = append(js, mk(sprintf("%s.par.weighted%d.max%d.prestate%d.pre%d", prop, w, mx, ps, pre), rootPkg, "ZZ_C0405_Par",
+							map[string]int{"prop": pn, "weighted": w, "max": mx, "pre": ps},
+							func(b *Bounds) { b.Unwind = 140; b.Preempt = pre; b.Race = true; b.MaxPaths = 8000000; b.MaxWallS = 3000 }))
+					}
+				}
 			}
 			c := mk(prop+".canary", rootPkg, fn, with(cfgParams(0, 0, 1, 2, 0, 0), "steps", 1, "canary", 1), func(b *Bounds) { b.Unwind = 70 })
 			c.Canary = prop + ".canary"
